@@ -106,7 +106,7 @@ func Harness_C20_fetchTail() {
 	short := vChoice("short-read", 2) == 1
 	// the source keeps growing: the first tree head it serves has size 4 (that is the head whose
 	// consistency the migrator verifies), every later one has size 5
-	src := make([]ct.LeafEntry, srcSize+1)
+	src := make([]ct.LeafEntry, 51)
 	for i := range src {
 		src[i] = c20Leaf([]byte{byte(0x40 + i)})
 	}
@@ -123,17 +123,31 @@ func Harness_C20_fetchTail() {
 	}
 	scanner.VerifHookGetRawEntries = func(_ context.Context, s, e int64) (*ct.GetEntriesResponse, error) {
 		vSched("get " + strconv.FormatInt(s, 10))
-		if s < 0 || e < s || e > srcSize {
+		if s < 0 || e < s || e > 50 {
 			return nil, errors.New("bad range")
 		}
+		// (the source keeps growing: whatever index is asked for exists by the time it is asked for)
 		if short && e > s {
 			e = s
 		}
 		return &ct.GetEntriesResponse{Entries: append([]ct.LeafEntry(nil), src[s:e+1]...)}, nil
 	}
+	// range configuration: one-shot over the whole log; continuous mode (which ignores the configured
+	// range, here an end index below the tail); one-shot with an end index beyond the verified size
+	fo := scanner.FetcherOptions{BatchSize: 2, ParallelFetch: 2}
+	switch vChoice("range-config", 3) {
+	case 1:
+		fo.Continuous, fo.StartIndex, fo.EndIndex = true, 0, 2
+	case 2:
+		fo.EndIndex = 7
+	}
+	channel := 0
+	if !fo.Continuous && fo.EndIndex == 0 {
+		channel = vChoice("channel", 2)
+	}
 	c20ProofCalls, c20VerifyCalls, c20ProofErr, c20VerifyOK = 0, 0, nil, true
 	c := &Controller{label: "t", ctClient: &client.LogClient{}, plClient: &PreorderedLogClient{cli: dst, treeID: 7, idFunc: idHashLeafIndex},
-		opts: Options{FetcherOptions: scanner.FetcherOptions{BatchSize: 2, ParallelFetch: 2, StartIndex: 0, EndIndex: 0}, Submitters: 2, ChannelSize: vChoice("channel", 2)}}
+		opts: Options{FetcherOptions: fo, Submitters: 2, ChannelSize: channel}}
 	pos, err := c.fetchTail(context.Background(), destSize)
 	dst.mu.Lock()
 	defer dst.mu.Unlock()
